@@ -168,7 +168,14 @@ def run(ctx):
     cov["instruction_level"]["unspecified_opcodes_seen"] = cov_v["vmval"].get("unspecified_seen", cov_v["vmval"].get("unspecified"))
     cov["traces_validated_against_impl"] = cov_v["traces_validated_against_impl"]
     cov["states"] += cov_v["states"]; cov["transitions"] += cov_v["transitions"]
+    # the standard library (NanoLib.tla): case table + laws + programs on native, NanoVM, nano_vm and the evaluator
+    from props import c02_lib
+    lstats, lsamples, lcov = c02_lib.run_lib(ctx)
+    cov["library"] = dict(lcov, classes=dict(lstats), samples=lsamples[:4])
+    cov["evaluations"] += lstats["table_checked"] + lstats["mix_checked"] + lstats["programs_checked"]
+    cov["distinct_nontrivial"] += lstats["table_cases"]
     return "translation_validation", cov, ass_v + [
+        "standard library: NanoLib.tla transcribes docs/STDLIB.md; cases tagged INFERRED follow the three engines where the documents are silent; `unspecified:*` cases are only checked for internal failures",
         "NanoSem.tla / Int64.tla are the reference (transcribed from SPECIFICATION 4-8; formal/Semantics.v for Mode coq: floor division)",
         "the Coq comparison covers / % and comparisons on the operator table; Coq's unbounded Z is compared only where no 64-bit wrap occurs",
         "x / 0 is excluded (undefined in the Coq model, engines differ by design)"]
